@@ -104,15 +104,16 @@ func (n *GSNode) Panics() []string {
 
 // World is one execution: fabric, nodes, monitors.
 type World struct {
-	Log     *mon.Log
-	Fab     *fab.Fabric
-	Ctx     context.Context
-	cancel  context.CancelFunc
-	Nodes   []*GSNode
-	Q       *mon.Quiescer
-	reqs    []*Req
-	mu      sync.Mutex
-	retired map[graphsync.RequestID]int64
+	Log        *mon.Log
+	Fab        *fab.Fabric
+	Ctx        context.Context
+	cancel     context.CancelFunc
+	Nodes      []*GSNode
+	Q          *mon.Quiescer
+	reqs       []*Req
+	mu         sync.Mutex
+	retired    map[graphsync.RequestID]int64
+	retiredAll map[graphsync.RequestID][]int64
 }
 
 // NewWorld creates an empty world.
@@ -136,6 +137,10 @@ func NewWorld() *World {
 				if _, dup := w.retired[id]; !dup {
 					w.retired[id] = now
 				}
+				if w.retiredAll == nil {
+					w.retiredAll = map[graphsync.RequestID][]int64{}
+				}
+				w.retiredAll[id] = append(w.retiredAll[id], now)
 				w.mu.Unlock()
 			}
 		}
@@ -300,6 +305,13 @@ func (w *World) RetiredAt(id graphsync.RequestID) int64 {
 	w.mu.Lock()
 	defer w.mu.Unlock()
 	return w.retired[id]
+}
+
+// RetiredAll returns every retirement time of request id (an id can be used for several requests in turn).
+func (w *World) RetiredAll(id graphsync.RequestID) []int64 {
+	w.mu.Lock()
+	defer w.mu.Unlock()
+	return append([]int64(nil), w.retiredAll[id]...)
 }
 
 // ConfirmStable decides a "nothing more will happen" verdict: cond describes the suspicious state ("" = fine).
